@@ -16,6 +16,10 @@ theorem upd_other {α : Type} (f : Nat → α) {i j : Nat} (v : α) (h : j ≠ i
 /-- the awaiter has been resumed (or is past it) -/
 def After (a : ASt) : Prop := a = .resuming ∨ a = .running ∨ a = .done
 
+/-- slot `n` is the slot of instance `i`'s token, taken and not yet recycled -/
+abbrev Held (tok : Nat → Option (Nat × Nat)) (box : Nat → CSlot) (n i : Nat) : Prop :=
+  ∃ ver, tok i = some (n, ver) ∧ (box n).ver = ver ∧ (box n).alloc = true ∧ (box n).taken = true
+
 structure Inv (s : State) : Prop where
   noBad : s.bad = false
   /-- a free slot is marked taken -/
@@ -23,76 +27,265 @@ structure Inv (s : State) : Prop where
   /-- an allocated, untaken slot belongs to the armed instance stored in it -/
   slotOk : ∀ n, (s.box n).alloc = true → (s.box n).taken = false →
     s.tok (s.box n).inst = some (n, (s.box n).ver) ∧ s.winner (s.box n).inst = none
-  /-- tokens were issued by an emplace; the current one names its own instance -/
-  tokOk : ∀ i n ver, s.tok i = some (n, ver) → (s.box n).used = true ∧ ver ≤ (s.box n).ver ∧
-    ((s.box n).ver = ver → (s.box n).inst = i)
+  /-- tokens were issued by an emplace, each to one instance -/
+  tokOk : ∀ i n ver, s.tok i = some (n, ver) → (s.box n).used = true ∧ ver ≤ (s.box n).ver
+  tokUniq : ∀ i j n ver, s.tok i = some (n, ver) → s.tok j = some (n, ver) → i = j
   /-- nobody won yet -/
   w0 : ∀ i, s.winner i = none → s.resumes i = 0 ∧ s.canceled i = false ∧ s.result i = none ∧
-    (∀ n ver, s.tok i = some (n, ver) → (s.box n).ver = ver ∧ (s.box n).taken = false ∧ (s.box n).alloc = true ∧
-      s.ast i = .suspended ∧ (s.ppc i = .inner ∨ s.ppc i = .take)) ∧
-    (s.tok i = none → s.ppc i = .none ∧ (s.ast i = .fresh ∨ s.ast i = .running)) ∧
-    (∀ c n, s.kpc c ≠ .doCancel n i)
+    ((s.tok i = none ∧ s.ppc i = .none ∧ (s.ast i = .fresh ∨ s.ast i = .running)) ∨
+     (∃ n ver, s.tok i = some (n, ver) ∧ (s.box n).ver = ver ∧ (s.box n).taken = false ∧ (s.box n).alloc = true ∧
+        (s.box n).inst = i ∧ s.ast i = .suspended ∧ (s.ppc i = .inner ∨ s.ppc i = .take)))
   /-- completion won -/
-  wC : ∀ i, s.winner i = some .completion → s.canceled i = false ∧ (∀ c n, s.kpc c ≠ .doCancel n i) ∧
-    (((s.ppc i = .doResume ∨ s.ppc i = .finish ∨ s.ppc i = .final true) ∧ s.resumes i = 0 ∧ s.ast i = .suspended ∧ s.result i = none) ∨
+  wC : ∀ i, s.winner i = some .completion → s.canceled i = false ∧ (∃ n ver, s.tok i = some (n, ver)) ∧
+    (((s.ppc i = .doResume ∨ s.ppc i = .finish) ∧ (∃ n, Held s.tok s.box n i) ∧ s.resumes i = 0 ∧ s.ast i = .suspended ∧ s.result i = none) ∨
+     (s.ppc i = .final true ∧ s.resumes i = 0 ∧ s.ast i = .suspended ∧ s.result i = none) ∨
      (s.ppc i = .done ∧ s.resumes i = 1 ∧ After (s.ast i)))
   /-- canceller `c` won -/
   wK : ∀ i c, s.winner i = some (.cancel c) →
     (s.ppc i = .inner ∨ s.ppc i = .take ∨ s.ppc i = .final false ∨ s.ppc i = .done) ∧
-    (((∃ n, s.kpc c = .doCancel n i) ∧ (∀ c' n, c' ≠ c → s.kpc c' ≠ .doCancel n i) ∧ s.resumes i = 0 ∧
-        s.ast i = .suspended ∧ s.canceled i = false ∧ s.result i = none) ∨
-     ((∀ c' n, s.kpc c' ≠ .doCancel n i) ∧ s.resumes i = 1 ∧ s.canceled i = true ∧ After (s.ast i)))
+    (∃ n ver, s.tok i = some (n, ver)) ∧
+    (((∃ n, s.kpc c = .doCancel n i) ∧ s.resumes i = 0 ∧ s.ast i = .suspended ∧ s.canceled i = false ∧ s.result i = none) ∨
+     ((∀ n, s.kpc c ≠ .doCancel n i) ∧ s.resumes i = 1 ∧ s.canceled i = true ∧ After (s.ast i)))
+  /-- cancellers past their take hold the slot and are the winner -/
+  kOk : ∀ c n i, (s.kpc c = .doCancel n i ∨ s.kpc c = .finish n i) → s.winner i = some (.cancel c) ∧ Held s.tok s.box n i
   /-- what `await_resume` returned -/
   resOk : ∀ i r, s.result i = some r → r = (if s.canceled i then none else some (s.value i))
-  /-- the proxy's `finish` step frees a slot it took -/
-  finOk : ∀ i, s.ppc i = .finish → ∃ n ver, s.tok i = some (n, ver)
   /-- the proxy only ever has an awaiter when completion won -/
-  finalOk : ∀ i, s.ppc i = .final true → s.winner i = some .completion
+  finalOk : ∀ i, (s.ppc i = .final true ∨ s.ppc i = .doResume ∨ s.ppc i = .finish) → s.winner i = some .completion
   armedOk : ∀ i, s.ppc i ≠ .none → ∃ n ver, s.tok i = some (n, ver)
+  runOk : ∀ i, s.ast i = .resuming → s.resumes i = 1
 
 theorem Inv.init : Inv State.init := by
   constructor <;> simp [State.init]
 
-set_option maxHeartbeats 8000000 in
+theorem resume_susp (s : State) (i : Nat) (h : s.ast i = .suspended) :
+    s.resume i = { s with ast := upd s.ast i .resuming, resumes := upd s.resumes i (s.resumes i + 1) } := by
+  simp [State.resume, h]
+
+macro "cn_grind" : tactic => `(tactic| grind (instances := 8000) (splits := 40) (gen := 12) [upd, After])
+
+/-- an instance with a winner has been armed -/
+theorem Inv.winner_none_of_tok {s : State} (hI : Inv s) {i : Nat} (h : s.tok i = none) : s.winner i = none := by
+  cases hwi : s.winner i with
+  | none => rfl
+  | some w =>
+    cases w with
+    | completion =>
+      obtain ⟨n, v, hv⟩ := (hI.wC i hwi).2.1
+      rw [h] at hv; cases hv
+    | cancel c =>
+      obtain ⟨n, v, hv⟩ := (hI.wK i c hwi).2.1
+      rw [h] at hv; cases hv
+
+/-- the instance whose token is current and untaken has no winner and sits in the slot -/
+theorem Inv.untaken_facts {s : State} (hI : Inv s) {i n ver : Nat} (ht : s.tok i = some (n, ver))
+    (hv : (s.box n).ver = ver) (hnt : (s.box n).taken = false) :
+    (s.box n).alloc = true ∧ (s.box n).inst = i ∧ s.winner i = none := by
+  have halloc : (s.box n).alloc = true := by
+    cases ha : (s.box n).alloc
+    · have := hI.freeTaken n ha; rw [hnt] at this; cases this
+    · rfl
+  have hs := hI.slotOk n halloc hnt
+  have hinst : (s.box n).inst = i := hI.tokUniq _ _ n ver (by rw [hs.1, hv]) ht
+  exact ⟨halloc, hinst, hinst ▸ hs.2⟩
+
+set_option maxHeartbeats 4000000 in
+theorem Inv.spawnStep {s : State} (hI : Inv s) {i v : Nat} (hf : s.ast i = .fresh) :
+    Inv { s with ast := upd s.ast i .running, value := upd s.value i v } := by
+  have hw : s.winner i = none := by
+    cases hwi : s.winner i with
+    | none => rfl
+    | some w =>
+      cases w with
+      | completion => rcases (hI.wC i hwi).2.2 with h' | h' | h' <;> simp [hf, After] at h'
+      | cancel c => rcases (hI.wK i c hwi).2.2 with h' | h' <;> simp [hf, After] at h'
+  have h0 := hI.w0 i hw
+  obtain ⟨noBad, freeTaken, slotOk, tokOk, tokUniq, w0, wC, wK, kOk, resOk, finalOk, armedOk, runOk⟩ := hI
+  constructor <;> (try simp only) <;> cn_grind
+
+set_option maxHeartbeats 4000000 in
+theorem Inv.armStep {s : State} (hI : Inv s) {i n ver : Nat} (h1 : s.ast i = .running) (h2 : s.tok i = none)
+    (h3 : (s.box n).alloc = false) (h4 : (s.box n).used = false ∨ (s.box n).ver < ver) :
+    Inv { s with ast := upd s.ast i .suspended, tok := upd s.tok i (some (n, ver)),
+                 box := upd s.box n { ver := ver, taken := false, alloc := true, used := true, inst := i },
+                 ppc := upd s.ppc i .inner } := by
+  have hw := hI.winner_none_of_tok h2
+  have h0 := hI.w0 i hw
+  have hnk : ∀ c m j, (s.kpc c = .doCancel m j ∨ s.kpc c = .finish m j) → m ≠ n := by
+    intro c m j hk e; subst e
+    obtain ⟨_, v, _, _, ha, _⟩ := hI.kOk c m j hk
+    rw [h3] at ha; cases ha
+  obtain ⟨noBad, freeTaken, slotOk, tokOk, tokUniq, w0, wC, wK, kOk, resOk, finalOk, armedOk, runOk⟩ := hI
+  constructor <;> (try simp only) <;> cn_grind
+
+set_option maxHeartbeats 4000000 in
+theorem Inv.pInner {s : State} (hI : Inv s) {i : Nat} (hp : s.ppc i = .inner) :
+    Inv { s with ppc := upd s.ppc i .take } := by
+  obtain ⟨noBad, freeTaken, slotOk, tokOk, tokUniq, w0, wC, wK, kOk, resOk, finalOk, armedOk, runOk⟩ := hI
+  constructor <;> (try simp only) <;> cn_grind
+
+set_option maxHeartbeats 4000000 in
+theorem Inv.pTakeT {s : State} (hI : Inv s) {i n ver : Nat} (hp : s.ppc i = .take) (ht : s.tok i = some (n, ver))
+    (hv : (s.box n).ver = ver) (hnt : (s.box n).taken = false) :
+    Inv { s with box := upd s.box n { s.box n with taken := true }, ppc := upd s.ppc i .doResume,
+                 winner := upd s.winner i (some .completion) } := by
+  obtain ⟨halloc, hinst, hw⟩ := hI.untaken_facts ht hv hnt
+  have h0 := hI.w0 i hw
+  obtain ⟨noBad, freeTaken, slotOk, tokOk, tokUniq, w0, wC, wK, kOk, resOk, finalOk, armedOk, runOk⟩ := hI
+  constructor <;> (try simp only) <;> cn_grind
+
+set_option maxHeartbeats 4000000 in
+theorem Inv.pTakeF {s : State} (hI : Inv s) {i n ver : Nat} (hp : s.ppc i = .take) (ht : s.tok i = some (n, ver))
+    (hc : ¬ ((s.box n).ver = ver ∧ (s.box n).taken = false)) :
+    Inv { s with ppc := upd s.ppc i (.final false) } := by
+  have hw : s.winner i ≠ none := by
+    intro hw
+    have := (hI.w0 i hw).2.2.2
+    rcases this with ⟨h', _⟩ | ⟨n', v', h1, h2, h3, _⟩
+    · rw [ht] at h'; cases h'
+    · rw [ht] at h1; injection h1 with h1; injection h1 with e1 e2; subst e1 e2; exact hc ⟨h2, h3⟩
+  have hwc : s.winner i ≠ some .completion := by
+    intro hwc
+    rcases (hI.wC i hwc).2.2 with h' | h' | h' <;> (rw [hp] at h'; simp at h')
+  obtain ⟨noBad, freeTaken, slotOk, tokOk, tokUniq, w0, wC, wK, kOk, resOk, finalOk, armedOk, runOk⟩ := hI
+  constructor <;> (try simp only) <;> cn_grind
+
+set_option maxHeartbeats 4000000 in
+theorem Inv.pDoResume {s : State} (hI : Inv s) {i : Nat} (hp : s.ppc i = .doResume) :
+    Inv { s with ppc := upd s.ppc i .finish } := by
+  have hw := hI.finalOk i (Or.inr (Or.inl hp))
+  obtain ⟨noBad, freeTaken, slotOk, tokOk, tokUniq, w0, wC, wK, kOk, resOk, finalOk, armedOk, runOk⟩ := hI
+  constructor <;> (try simp only) <;> cn_grind
+
+set_option maxHeartbeats 4000000 in
+theorem Inv.pFinish {s : State} (hI : Inv s) {i n ver : Nat} (hp : s.ppc i = .finish) (ht : s.tok i = some (n, ver)) :
+    Inv { s.free n with ppc := upd s.ppc i (.final true) } := by
+  have hw := hI.finalOk i (Or.inr (Or.inr hp))
+  have hc := hI.wC i hw
+  have hheld : Held s.tok s.box n i := by
+    rcases hc.2.2 with ⟨_, ⟨m, v, h1, h2⟩, _⟩ | h' | h'
+    · rw [ht] at h1; injection h1 with h1; injection h1 with e1 e2; subst e1 e2; exact ⟨_, ht, h2⟩
+    · rw [hp] at h'; simp at h'
+    · rw [hp] at h'; simp at h'
+  obtain ⟨v, hv1, hv2, hv3, hv4⟩ := hheld
+  -- nobody else holds slot `n`
+  have hnk : ∀ c m j, (s.kpc c = .doCancel m j ∨ s.kpc c = .finish m j) → m ≠ n := by
+    intro c m j hk e; subst e
+    obtain ⟨hwj, v', h1, h2, _, _⟩ := hI.kOk c m j hk
+    have : j = i := hI.tokUniq j i m v' h1 (by rw [hv1, ← hv2, h2])
+    subst this
+    rw [hw] at hwj; cases hwj
+  have hnp : ∀ j, j ≠ i → ∀ m, Held s.tok s.box m j → m ≠ n := by
+    intro j hji m ⟨v', h1, h2, _, _⟩ e; subst e
+    exact hji (hI.tokUniq j i m v' h1 (by rw [hv1, ← hv2, h2]))
+  obtain ⟨noBad, freeTaken, slotOk, tokOk, tokUniq, w0, wC, wK, kOk, resOk, finalOk, armedOk, runOk⟩ := hI
+  constructor <;> (try simp only [State.free]) <;> cn_grind
+
+set_option maxHeartbeats 4000000 in
+theorem Inv.pFinalT {s : State} (hI : Inv s) {i : Nat} (hp : s.ppc i = .final true) :
+    Inv { s.resume i with ppc := upd s.ppc i .done } := by
+  have hw := hI.finalOk i (Or.inl hp)
+  have hc := hI.wC i hw
+  have hsus : s.ast i = .suspended := by
+    rcases hc.2.2 with h' | h' | h'
+    · rw [hp] at h'; simp at h'
+    · exact h'.2.2.1
+    · rw [hp] at h'; simp at h'
+  rw [resume_susp s i hsus]
+  obtain ⟨noBad, freeTaken, slotOk, tokOk, tokUniq, w0, wC, wK, kOk, resOk, finalOk, armedOk, runOk⟩ := hI
+  constructor <;> (try simp only) <;> cn_grind
+
+set_option maxHeartbeats 4000000 in
+theorem Inv.pFinalF {s : State} (hI : Inv s) {i : Nat} (hp : s.ppc i = .final false) :
+    Inv { s with ppc := upd s.ppc i .done } := by
+  obtain ⟨noBad, freeTaken, slotOk, tokOk, tokUniq, w0, wC, wK, kOk, resOk, finalOk, armedOk, runOk⟩ := hI
+  constructor <;> (try simp only) <;> cn_grind
+
+set_option maxHeartbeats 4000000 in
+theorem Inv.kStart {s : State} (hI : Inv s) {c n ver : Nat} (hk : s.kpc c = .idle) :
+    Inv { s with kpc := upd s.kpc c (.take n ver) } := by
+  obtain ⟨noBad, freeTaken, slotOk, tokOk, tokUniq, w0, wC, wK, kOk, resOk, finalOk, armedOk, runOk⟩ := hI
+  constructor <;> (try simp only) <;> cn_grind
+
+set_option maxHeartbeats 4000000 in
+theorem Inv.kTakeT {s : State} (hI : Inv s) {c n ver : Nat} (hk : s.kpc c = .take n ver)
+    (hv : (s.box n).ver = ver) (hnt : (s.box n).taken = false) :
+    Inv { s with box := upd s.box n { s.box n with taken := true }, kpc := upd s.kpc c (.doCancel n (s.box n).inst),
+                 winner := upd s.winner (s.box n).inst (some (.cancel c)) } := by
+  have halloc : (s.box n).alloc = true := by
+    cases ha : (s.box n).alloc
+    · have := hI.freeTaken n ha; rw [hnt] at this; cases this
+    · rfl
+  have hs := hI.slotOk n halloc hnt
+  have h0 := hI.w0 _ hs.2
+  have hnd : ∀ m j, s.kpc c ≠ .doCancel m j := by intro m j e; rw [hk] at e; cases e
+  obtain ⟨noBad, freeTaken, slotOk, tokOk, tokUniq, w0, wC, wK, kOk, resOk, finalOk, armedOk, runOk⟩ := hI
+  constructor <;> (try simp only) <;> cn_grind
+
+set_option maxHeartbeats 4000000 in
+theorem Inv.kTakeF {s : State} (hI : Inv s) {c n ver : Nat} (hk : s.kpc c = .take n ver) :
+    Inv { s with kpc := upd s.kpc c .idle, kres := upd s.kres c false } := by
+  obtain ⟨noBad, freeTaken, slotOk, tokOk, tokUniq, w0, wC, wK, kOk, resOk, finalOk, armedOk, runOk⟩ := hI
+  constructor <;> (try simp only) <;> cn_grind
+
+set_option maxHeartbeats 4000000 in
+theorem Inv.kDoCancel {s : State} (hI : Inv s) {c n i : Nat} (hk : s.kpc c = .doCancel n i) :
+    Inv { ({ s with canceled := upd s.canceled i true } : State).resume i with kpc := upd s.kpc c (.finish n i) } := by
+  obtain ⟨hw, hheld⟩ := hI.kOk c n i (Or.inl hk)
+  have hK := hI.wK i c hw
+  have hsus : s.ast i = .suspended := by
+    rcases hK.2.2 with h' | h'
+    · exact h'.2.2.1
+    · exact absurd hk (h'.1 n)
+  have : ({ s with canceled := upd s.canceled i true } : State).ast i = .suspended := hsus
+  rw [resume_susp _ i this]
+  obtain ⟨noBad, freeTaken, slotOk, tokOk, tokUniq, w0, wC, wK, kOk, resOk, finalOk, armedOk, runOk⟩ := hI
+  constructor <;> (try simp only) <;> cn_grind
+
+set_option maxHeartbeats 4000000 in
+theorem Inv.kFinish {s : State} (hI : Inv s) {c n i : Nat} (hk : s.kpc c = .finish n i) :
+    Inv { s.free n with kpc := upd s.kpc c .idle, kres := upd s.kres c true } := by
+  obtain ⟨hw, v, hv1, hv2, hv3, hv4⟩ := hI.kOk c n i (Or.inr hk)
+  have hnk : ∀ c' m j, c' ≠ c → (s.kpc c' = .doCancel m j ∨ s.kpc c' = .finish m j) → m ≠ n := by
+    intro c' m j hcc hk' e; subst e
+    obtain ⟨hwj, v', h1, h2, _, _⟩ := hI.kOk c' m j hk'
+    have : j = i := hI.tokUniq j i m v' h1 (by rw [hv1, ← hv2, h2])
+    subst this
+    rw [hw] at hwj; injection hwj with hwj; injection hwj with hwj; exact hcc hwj
+  have hnp : ∀ j m, s.winner j = some .completion → Held s.tok s.box m j → m ≠ n := by
+    intro j m hwj ⟨v', h1, h2, _, _⟩ e; subst e
+    have : j = i := hI.tokUniq j i m v' h1 (by rw [hv1, ← hv2, h2])
+    subst this
+    rw [hw] at hwj; cases hwj
+  obtain ⟨noBad, freeTaken, slotOk, tokOk, tokUniq, w0, wC, wK, kOk, resOk, finalOk, armedOk, runOk⟩ := hI
+  constructor <;> (try simp only [State.free]) <;> cn_grind
+
+set_option maxHeartbeats 4000000 in
+theorem Inv.runStep {s : State} (hI : Inv s) {i : Nat} (hr : s.ast i = .resuming) :
+    Inv { s with ast := upd s.ast i .running,
+                 result := upd s.result i (some (if s.canceled i then none else some (s.value i))) } := by
+  have h1 := hI.runOk i hr
+  have hw : s.winner i ≠ none := by
+    intro hw; have := (hI.w0 i hw).1; omega
+  obtain ⟨noBad, freeTaken, slotOk, tokOk, tokUniq, w0, wC, wK, kOk, resOk, finalOk, armedOk, runOk⟩ := hI
+  constructor <;> (try simp only) <;> cn_grind
+
 theorem Inv.step {s s' : State} (hI : Inv s) (h : Step s s') : Inv s' := by
-  obtain ⟨noBad, freeTaken, slotOk, tokOk, w0, wC, wK, resOk, finOk, finalOk, armedOk⟩ := hI
   cases h with
-  | spawn i v hf =>
-    have hw : s.winner i = none := by
-      cases hwi : s.winner i with
-      | none => rfl
-      | some w =>
-        cases w with
-        | completion => rcases (wC i hwi).2.2 with h' | h' <;> simp [hf, After] at h'
-        | cancel c => rcases (wK i c hwi).2 with h' | h' <;> simp [hf, After] at h'
-    have htk : s.tok i = none := by
-      cases ht : s.tok i with
-      | none => rfl
-      | some p => have := ((w0 i hw).2.2.2.1 p.1 p.2 ht).2.2.2.1; rw [hf] at this; cases this
-    constructor <;> (try simp only) <;> grind [upd, After]
+  | spawn i v hf => exact hI.spawnStep hf
   | arm i n ver s'' e ha =>
     unfold arm at ha
     split at ha
     · rename_i hc
       injection ha with ha; injection ha with ha _; subst ha
-      obtain ⟨hc1, hc2, hc3, hc4⟩ := hc
-      have hw : s.winner i = none := by
-        cases hwi : s.winner i with
-        | none => rfl
-        | some w =>
-          have hpn : s.ppc i ≠ .none := by
-            cases w with
-            | completion => rcases (wC i hwi).2.2 with h' | h' <;> grind
-            | cancel c => have := (wK i c hwi).1; grind
-          obtain ⟨n', ver', ht⟩ := armedOk i hpn
-          rw [hc2] at ht; cases ht
-      constructor <;> (try simp only) <;> grind [upd, After]
+      exact hI.armStep hc.1 hc.2.1 hc.2.2.1 hc.2.2.2
     · cases ha
   | proxy i s'' e hp =>
     unfold stepProxy at hp
     split at hp
-    · injection hp with hp; injection hp with hp _; subst hp
-      constructor <;> (try simp only) <;> grind [upd, After]
+    · rename_i hpc
+      injection hp with hp; injection hp with hp _; subst hp
+      exact hI.pInner hpc
     · rename_i n ver hpc htk
       by_cases hc : (s.box n).ver = ver ∧ (s.box n).taken = false
       · have : s.take n ver = (true, { s with box := upd s.box n { s.box n with taken := true } }) := by
@@ -100,31 +293,30 @@ theorem Inv.step {s s' : State} (hI : Inv s) (h : Step s s') : Inv s' := by
         rw [this] at hp
         simp only [if_true] at hp
         injection hp with hp; injection hp with hp _; subst hp
-        constructor <;> (try simp only) <;> grind [upd, After]
+        exact hI.pTakeT hpc htk hc.1 hc.2
       · have : s.take n ver = (false, s) := by simp only [State.take]; rw [if_neg hc]
         rw [this] at hp
         simp only [Bool.false_eq_true, if_false] at hp
         injection hp with hp; injection hp with hp _; subst hp
-        constructor <;> (try simp only) <;> grind [upd, After]
-    · injection hp with hp; injection hp with hp _; subst hp
-      constructor <;> (try simp only) <;> grind [upd, After]
-    · injection hp with hp; injection hp with hp _; subst hp
-      constructor <;> (try simp only [State.free]) <;> grind [upd, After]
+        exact hI.pTakeF hpc htk hc
+    · rename_i hpc
+      injection hp with hp; injection hp with hp _; subst hp
+      exact hI.pDoResume hpc
+    · rename_i n ver hpc htk
+      injection hp with hp; injection hp with hp _; subst hp
+      exact hI.pFinish hpc htk
     · rename_i aw hpc
-      split at hp
-      · injection hp with hp; injection hp with hp _; subst hp
-        rename_i haw
-        subst haw
-        have hwin := finalOk i hpc
-        have := wC i hwin
-        have hsus : s.ast i = .suspended := by grind
-        simp only [State.resume, hsus, if_true]
-        constructor <;> (try simp only) <;> grind [upd, After]
-      · injection hp with hp; injection hp with hp _; subst hp
-        constructor <;> (try simp only) <;> grind [upd, After]
+      cases aw with
+      | true =>
+        simp only [if_true] at hp
+        injection hp with hp; injection hp with hp _; subst hp
+        exact hI.pFinalT hpc
+      | false =>
+        simp only [Bool.false_eq_true, if_false] at hp
+        injection hp with hp; injection hp with hp _; subst hp
+        exact hI.pFinalF hpc
     · cases hp
-  | cancel c n ver hk hu hv =>
-    constructor <;> (try simp only) <;> grind [upd, After]
+  | cancel c n ver hk hu hv => exact hI.kStart hk
   | kstep c s'' e hk =>
     unfold stepCancel at hk
     split at hk
@@ -136,45 +328,24 @@ theorem Inv.step {s s' : State} (hI : Inv s) (h : Step s s') : Inv s' := by
         rw [this] at hk
         simp only [if_true] at hk
         injection hk with hk; injection hk with hk _; subst hk
-        have halloc : (s.box n).alloc = true := by
-          cases ha : (s.box n).alloc
-          · have := freeTaken n ha; rw [hc.2] at this; cases this
-          · rfl
-        have := slotOk n halloc hc.2
-        constructor <;> (try simp only) <;> grind [upd, After]
+        exact hI.kTakeT hpc hc.1 hc.2
       · have : s.take n ver = (false, s) := by simp only [State.take]; rw [if_neg hc]
         rw [this] at hk
         simp only [Bool.false_eq_true, if_false] at hk
         injection hk with hk; injection hk with hk _; subst hk
-        constructor <;> (try simp only) <;> grind [upd, After]
+        exact hI.kTakeF hpc
     · rename_i n i hpc
       injection hk with hk; injection hk with hk _; subst hk
-      have hwin : s.winner i = some (.cancel c) := by
-        cases hwi : s.winner i with
-        | none => exact absurd hpc ((w0 i hwi).2.2.2.2.2 c n)
-        | some w =>
-          cases w with
-          | completion => exact absurd hpc ((wC i hwi).2.1 c n)
-          | cancel c' =>
-            by_cases hcc : c' = c
-            · rw [hcc]
-            · rcases (wK i c' hwi).2 with h' | h'
-              · exact absurd hpc (h'.2.1 c n (fun e => hcc e.symm))
-              · exact absurd hpc (h'.1 c n)
-      have hk' := wK i c hwin
-      have hsus : s.ast i = .suspended := by
-        rcases hk'.2 with h' | h'
-        · exact h'.2.2.2.1
-        · exact absurd hpc (h'.1 c n)
-      simp only [State.resume, hsus, if_true]
-      constructor <;> (try simp only) <;> grind [upd, After]
-    · injection hk with hk; injection hk with hk _; subst hk
-      constructor <;> (try simp only [State.free]) <;> grind [upd, After]
+      exact hI.kDoCancel hpc
+    · rename_i n i hpc
+      injection hk with hk; injection hk with hk _; subst hk
+      exact hI.kFinish hpc
   | run i s'' hr =>
     unfold run at hr
     split at hr
-    · injection hr with hr; subst hr
-      constructor <;> (try simp only) <;> grind [upd, After]
+    · rename_i hc
+      injection hr with hr; subst hr
+      exact hI.runStep hc
     · cases hr
 
 def Reach (s : State) : Prop := Reachable (· = State.init) Step s
